@@ -13,7 +13,7 @@ CONSTANTS
   StoreFaults <- NoStoreFaults
   DelFaults = FALSE
   ApiCrash = FALSE
-  FixTee = FALSE
+  FixTee = TRUE
 VIEW view
 ACTION_CONSTRAINT Emit
 CHECK_DEADLOCK FALSE
